@@ -19,6 +19,7 @@ def _vc(name, variables=None, label=None):
     return ("vc", name, variables, label)
 
 
+JEAIII = [_vc("jeaiii", None, "jeaiii")]
 WI_RADIX = [_vc("wi_radix", {"T": "u64", "BITS": "64"}, "wi_radix-u64"),
             _vc("wi_radix", {"T": "u32", "BITS": "32"}, "wi_radix-u32")]
 DIV128_Q = [_vc("div128", {"FEATURES": "radix"}, "div128-radix")]
@@ -47,6 +48,7 @@ PROPS["C02"] = dict(
                "equals the defining ceiling; every integer-log approximation is exact on every argument reachable from a "
                "finite f32/f64 and keeps the cache index and shift in range; every exponent threshold that skips an exact "
                "test satisfies its defining inequality at every binary exponent. The Dragonbox theorem is assumed.",
+    verus_quick=JEAIII,
     rows_quick=["wf-dragonbox-table", "wf-dragonbox-thresholds", "wf-dragonbox-logs"],
     assumptions=["ASSUMED: Dragonbox theorem (Jeon 2020): with exact cache rows, exact helper arithmetic and correctly "
                  "derived thresholds the result is in the rounding interval, shortest and closest",
@@ -58,7 +60,7 @@ PROPS["C03"] = dict(
                "all 35 radices) prove quotient/remainder for all n; every radix^2 digit table entry and every step / "
                "divisor constant is a discharged row obligation; Kani proves small-width entry points on the real crates "
                "over their full domains.",
-    verus_quick=DIV128_Q + WI_RADIX, verus_thorough=DIV128_T + WI_RADIX,
+    verus_quick=DIV128_Q + WI_RADIX + JEAIII, verus_thorough=DIV128_T + WI_RADIX + JEAIII,
     rows_quick=["wi-digit-tables", "util-step"],
     assumptions=["core::fmt::Display prints the canonical decimal numeral (not verified here)"],
 )
@@ -77,6 +79,16 @@ PROPS["C05"] = dict(
     rows_quick=["pf-limits", "pf-int-powers"],
     assumptions=FLOAT_THEOREMS,
 )
+PROPS["C09"] = dict(
+    title="Writers honour the documented buffer bound and never access memory outside it",
+    level_text="Integer writers: every unchecked table/buffer index of the radix writer and every index of the jeaiii "
+               "writer is an in-bounds obligation discharged by Verus for all values (given count == ndigits, itself "
+               "proved), with a frame postcondition (bytes beyond the returned length unchanged); Kani checks pointer "
+               "validity on the real unsafe code for the 8/16-bit types in all radices with a guard region behind the "
+               "caller's slice. Float writers are not yet under contract for this property.",
+    verus_quick=WI_RADIX + JEAIII,
+    assumptions=["float writers (Dragonbox/Grisu/binary/radix emit functions) are not covered by this check yet"],
+)
 PROPS["C10"] = dict(
     title="Parsers are total",
     level_text="Every parser harness is also a totality check on the real code (no panic, no failed pointer check, "
@@ -87,6 +99,27 @@ PROPS["C11"] = dict(
     title="Partial and complete parsers agree",
     level_text="Relational Kani harnesses on the same symbolic input, both directions plus prefix re-parse.",
     assumptions=[],
+)
+PROPS["C12"] = dict(
+    title="Number-format syntax flags accept exactly the documented grammar",
+    level_text="The float tokenizer is compared with a reference grammar written from the flag documentation, for an "
+               "instantiated list of flag combinations (FORMAT is a const generic) on all strings over the number "
+               "alphabet up to a stated length: same accept/reject, consumed count, mantissa/exponent value and digit slices.",
+    assumptions=["bounded: instantiated format list and input length; integer-parser flags (leading zeros, base prefix) not covered yet"],
+)
+PROPS["C15"] = dict(
+    title="Special values and signed zero are handled consistently",
+    level_text="Special-string recognition (complete and partial) equals a reference prefix matcher for default, custom "
+               "(prefix-related), None, case-sensitive and no_special configurations on all byte strings up to a stated "
+               "length; the Lemire kernel never produces the NaN encoding (exp == max implies mant == 0) for any (q, w).",
+    assumptions=["option strings are an instantiated list (they must be 'static); writer side not yet covered"],
+)
+PROPS["C19"] = dict(
+    title="Lossy float parsing changes only precision",
+    level_text="compute_float(q, w, lossy=true) equals the exact call wherever that is conclusive (all q, w; thorough tier); "
+               "representation contract with symbolic lossy (quick). The <= 1 ULP bound in inconclusive cases is assumed "
+               "(Eisel-Lemire error analysis).",
+    assumptions=FLOAT_THEOREMS + ["the tokenizer does not take the lossy flag at all (parse_number has no access to it) - by inspection of its signature: it receives &Options but the C11/C12 harness contract fixes its result independently of lossy"],
 )
 PROPS["C16"] = dict(
     title="Cargo features are additive",
@@ -131,7 +164,7 @@ def build_jobs(prop, tier, wd, only=None):
             continue
         if only and only not in h.name:
             continue
-        feats = h.feats if tier == "thorough" else h.feats[:2]
+        feats = h.feats if tier == "thorough" else h.feats[:1]
         for fs in feats:
             groups.setdefault(fs, []).append(h)
     for fs, lst in sorted(groups.items()):
